@@ -212,6 +212,7 @@ FilterClauses(T, prev, ev, post) ==
     IN If(ev.out # "ok", {Tag("C07:filter-raised", ev.names)})
   \cup (IF ev.out = "ok" THEN
              If(ev.res # ApplyFilters(I, s, ev.names, ev.L), {Tag("C07:filter", ev.names)})
+        \cup If(ev.res_first # ev.res, {Tag("C07:filter-result-changes-between-calls", ev.names)})
         \cup If(~IsSubSeqOf(ev.res, ev.L) \/ ~NoDup(ev.res), {Tag("C07:filter-not-sublist", ev.names)})
         \cup If(ev.L # <<>> /\ ev.res = <<>>, {Tag("C07:filter-empty", ev.names)})
         ELSE {})
@@ -292,7 +293,7 @@ BestFilteredClauses(T, prev, ev, post) ==
 CpSatClauses(T, prev, ev, post) ==
     LET I == T.inst IN
     IF ev.out = "exc:NoSolutionFoundError"
-    THEN If(ev.mode # "timelimit", {C("C03:no-solution-without-time-limit")})
+    THEN If(ev.mode \notin {"timelimit", "shortlimit"}, {C("C03:no-solution-without-time-limit")})
     ELSE IF ev.out # "ok" THEN {Tag("C03:cpsat-raised", <<ev.mode, ev.out>>)}
     ELSE IF ~WellTypedSchedule(I, ev.sched) THEN {Tag("C03:infeasible", ev.mode), Tag("C03:schedule-mentions-foreign-operations", ev.mode)}
     ELSE   If(~Feasible(I, ev.sched), {Tag("C03:infeasible", ev.mode)})
